@@ -3,7 +3,7 @@ from __future__ import annotations
 
 ID = "C03"
 BOUNDS = {
-    "quick": "complete: TPCI octet 0..255 symbolic x dst_is_group x dst_is_zero symbolic; every TPCI subclass with symbolic sequence number 0..15 against each destination kind it is used with",
+    "quick": "complete: TPCI octet 0..255 symbolic x dst_is_group x dst_is_zero symbolic; every TPCI subclass with symbolic sequence number 0..15 against each destination kind it is used with, both as TPCI.to_knx() -> TPCI.resolve and through the cEMI L_Data frame the library builds (CEMILData.to_knx -> CEMIFrame.from_knx)",
     "thorough": "same as quick (the space is finite and fully covered)",
 }
 OUTSIDE = "sequence numbers outside 0..15 passed to constructors (not constructible from the wire)"
@@ -94,6 +94,16 @@ def run_job(job, rep):
                 c.notes.update(seq=seq)
                 enc = t.to_knx()
                 t2 = tpci.TPCI.resolve(enc, g, z)
+                # the octet as the library actually puts it on the wire: through the cEMI L_Data frame builder and parser
+                from xknx.cemi import CEMIFrame, CEMILData, CEMIMessageCode
+                from xknx.telegram import GroupAddress, IndividualAddress, Telegram
+                from xknx.telegram import apci
+                dst = (GroupAddress(0) if z else GroupAddress(0x0901)) if g else (IndividualAddress(0) if z else IndividualAddress(0x1105))
+                payload = None if isinstance(t, tpci.TPCI) and t.control else (apci.GroupValueRead() if g else apci.DeviceDescriptorRead(descriptor=0))
+                tg = Telegram(destination_address=dst, tpci=t, payload=payload, source_address=IndividualAddress(0x1101))
+                raw = CEMIFrame(code=CEMIMessageCode.L_DATA_IND, data=CEMILData.init_from_telegram(tg)).to_knx()
+                t3 = CEMIFrame.from_knx(raw).data.tpci
+                c.notes["via_frame"] = t3
                 return t, enc, t2
 
             def judge(pr):
@@ -113,6 +123,12 @@ def run_job(job, rep):
                 if mm is not None:
                     case["seq"] = core.model_val(mm, c.notes["seq"])
                 rep.ob(st, f"built-roundtrip:{cls.__name__}", case, f"decoded {type(t2).__name__}")
+                t3 = c.notes["via_frame"]
+                st3, mm3 = c.prove(core.sym_and(type(t3) is type(t), t3 == t))
+                case3 = dict(case, via_frame=True)
+                if mm3 is not None:
+                    case3["seq"] = core.model_val(mm3, c.notes["seq"])
+                rep.ob(st3, f"built-roundtrip-via-cemi-frame:{cls.__name__}", case3, f"frame decoded to {t3!r}")
                 rep.sample(dict(case=case, decoded=type(t2).__name__), limit=6)
 
             _, st = core.explore(run, on_path=judge, stop=rep.enough)
@@ -150,4 +166,18 @@ def replay(case):
         return True, f"{t!r} encodes to {t.to_knx():#04x} which is rejected: {e!r}"
     if type(t2) is not type(t) or t2 != t:
         return True, f"{t!r} -> {t.to_knx():#04x} -> {t2!r}"
+    if case.get("via_frame"):
+        from xknx.cemi import CEMIFrame, CEMILData, CEMIMessageCode
+        from xknx.telegram import GroupAddress, IndividualAddress, Telegram, apci
+        g, z = case["group"], case["zero"]
+        dst = (GroupAddress(0) if z else GroupAddress(0x0901)) if g else (IndividualAddress(0) if z else IndividualAddress(0x1105))
+        payload = None if t.control else (apci.GroupValueRead() if g else apci.DeviceDescriptorRead(descriptor=0))
+        tg = Telegram(destination_address=dst, tpci=t, payload=payload, source_address=IndividualAddress(0x1101))
+        try:
+            raw = CEMIFrame(code=CEMIMessageCode.L_DATA_IND, data=CEMILData.init_from_telegram(tg)).to_knx()
+            t3 = CEMIFrame.from_knx(raw).data.tpci
+        except Exception as e:  # noqa: BLE001
+            return True, f"{t!r} in an L_Data frame: {e!r}"
+        if type(t3) is not type(t) or t3 != t:
+            return True, f"{t!r} built into frame {raw.hex()} decodes to {t3!r}"
     return False, "ok"
